@@ -11,7 +11,7 @@
 (*   x carrier kind x 0..MaxHops hops.                                     *)
 (* A behaviour is one case: Init picks it, each step is one hop.           *)
 (*                                                                         *)
-(* Two configurations:                                                     *)
+(* Two modes, both swept inside one TLC run (Init chooses):                *)
 (*   design (Impl416 = FALSE, TrimExact = TRUE): every law, no exception    *)
 (*   impl   (Impl416 = TRUE, TrimExact = FALSE): the current code; the laws *)
 (*          hold outside the named cells K2Cell, K2bCell, StutterCell and   *)
@@ -19,7 +19,7 @@
 (***************************************************************************)
 EXTENDS OciError, Json
 
-CONSTANTS Impl416, TrimExact, MaxHops, Statuses, Kinds, Export
+CONSTANTS Modes, MaxHops, Statuses, Kinds, Export
 
 SelfNamed == {"MANIFEST_INVALID", "BLOB_UPLOAD_INVALID"}  \* message text = own code prefix
 MCStdMsg == [c \in StdCodes |-> IF c \in SelfNamed THEN <<C(c)>> ELSE <<M(c)>>]
@@ -58,11 +58,13 @@ WS == {<<w, s>> : w \in Wraps \ {"http"}, s \in {0}} \cup {<<"http", s>> : s \in
 Domain == UNION {{Wrapped(x, ws[1], ws[2]) : x \in Leaves(c, FinalStatus(c, ws[1], ws[2]))} : c \in Codes, ws \in WS}
           \cup {Http(s, <<>>) : s \in Statuses}
 
-VARIABLES t0, kind, k, cur
-vars == <<t0, kind, k, cur>>
+VARIABLES mode, t0, kind, k, cur
+vars == <<mode, t0, kind, k, cur>>
+Impl416 == mode = "impl"
+TrimExact == mode = "design"
 
-Init == t0 \in Domain /\ kind \in Kinds /\ k = 0 /\ cur = t0
-Next == k < MaxHops /\ k' = k + 1 /\ cur' = Hop(cur, kind, TrimExact) /\ UNCHANGED <<t0, kind>>
+Init == mode \in Modes /\ t0 \in Domain /\ kind \in Kinds /\ k = 0 /\ cur = t0
+Next == k < MaxHops /\ k' = k + 1 /\ cur' = Hop(cur, kind, TrimExact) /\ UNCHANGED <<mode, t0, kind>>
 Spec == Init /\ [][Next]_vars
 
 Is(t) == IsSet(t, Impl416)
